@@ -227,6 +227,17 @@ func runDirect(c Case) *ev.Failure {
 		rd, buffered = bufio.NewReader(r), true
 	case "bufio.Reader16": // the smallest buffer bufio allows: smaller than a header
 		rd, buffered = bufio.NewReaderSize(r, 16), true
+	case "sctp": // ReadMessage called on a multi-stream association: every fragment is a chunk of stream 2
+		be := memnet.NewSCTP()
+		for _, f := range c.fragments(all) {
+			if len(f) > 0 {
+				be.Feed(memnet.Chunk{Stream: 2, Data: f})
+			}
+		}
+		be.FeedEOF()
+		sc := diam.NewVerifSCTPConn(be)
+		defer diam.ReleaseVerifSCTPConn(sc)
+		rd, buffered = sc, true
 	}
 	want := 0
 	for i, orig := range msgs {
@@ -449,7 +460,7 @@ func genCase(t *rapid.T) Case {
 	default:
 		c.Tail = Tail{Kind: "short-length", Declared: rapid.IntRange(0, 19).Draw(t, "declared"), Trailing: rapid.IntRange(0, 120).Draw(t, "trailing")}
 	}
-	c.Consumer = rapid.SampledFrom([]string{"direct", "direct", "conn", "conn", "bytes.Reader", "bytes.Buffer", "strings.Reader", "bufio.Reader", "bufio.Reader16", "net.Conn"}).Draw(t, "consumer")
+	c.Consumer = rapid.SampledFrom([]string{"direct", "direct", "conn", "conn", "bytes.Reader", "bytes.Buffer", "strings.Reader", "bufio.Reader", "bufio.Reader16", "net.Conn", "sctp"}).Draw(t, "consumer")
 	c.EOFWithData = rapid.IntRange(0, 2).Draw(t, "eof-with-data") == 0
 	c.NoPad = rapid.IntRange(0, 3).Draw(t, "no-pad") == 0
 	if c.Consumer != "conn" && rapid.IntRange(0, 5).Draw(t, "empty-reads") == 0 {
@@ -484,7 +495,7 @@ func genCase(t *rapid.T) Case {
 
 var prop = ev.Register(&ev.Prop[Case]{
 	ID: "C05", Name: "stream",
-	Rule: "1..6 messages with bodies around the 1 KiB pooled buffer (996..1040), tiny, ~4 KiB, ~70 KB and (rarely) 1..8 MiB, concatenated; tail = clean end / truncation 1..79 bytes into a further message (1 in 4: one with an unknown command code) / a header declaring length 0..19 followed by 0..120 bytes that look like further messages; fragmentation = one segment / runs of 1-byte reads / boundary-sized fragments, 1 in 6 scripted readers also return an empty read (0, nil) every 2nd..5th call; 1 in 4 cases with every message's last AVP unpadded and the declared length exact (not a multiple of 4); consumed by ReadMessage in a loop on a scripted reader (which counts the bytes asked for), on bytes.Reader / bytes.Buffer / strings.Reader (which know how much they hold), through a bufio.Reader of the default and of the smallest size, on a bare net.Conn (scripted; counts the bytes asked for), and by the library's connection loop, whose handler optionally answers every message while one transport write is refused with a temporary error; non-trivial = >=2 messages and a read boundary strictly inside a message",
+	Rule: "1..6 messages with bodies around the 1 KiB pooled buffer (996..1040), tiny, ~4 KiB, ~70 KB and (rarely) 1..8 MiB, concatenated; tail = clean end / truncation 1..79 bytes into a further message (1 in 4: one with an unknown command code) / a header declaring length 0..19 followed by 0..120 bytes that look like further messages; fragmentation = one segment / runs of 1-byte reads / boundary-sized fragments, 1 in 6 scripted readers also return an empty read (0, nil) every 2nd..5th call; 1 in 4 cases with every message's last AVP unpadded and the declared length exact (not a multiple of 4); consumed by ReadMessage in a loop on a scripted reader (which counts the bytes asked for), on bytes.Reader / bytes.Buffer / strings.Reader (which know how much they hold), through a bufio.Reader of the default and of the smallest size, on a bare net.Conn (scripted; counts the bytes asked for), and by the library's connection loop, whose handler optionally answers every message while one transport write is refused with a temporary error; non-trivial = >=2 messages and a read boundary strictly inside a message ReadMessage is also called directly on a multi-stream association (in-memory SCTP backend, every fragment a chunk of one stream, then EOF): same messages, same end-of-stream outcomes.",
 	Gen:  genCase, Run: runCase, Classify: classify,
 })
 
@@ -500,7 +511,7 @@ func TestC05ExhaustiveSplits(t *testing.T) {
 		{Fillers: []int{5}, Tail: Tail{Kind: "short-length", Declared: 0, Trailing: 8}},
 	}
 	prop.Enumerate(t, true, func(yield func(Case) bool) {
-		for _, consumer := range []string{"direct", "conn", "net.Conn"} {
+		for _, consumer := range []string{"direct", "conn", "net.Conn", "sctp"} {
 			for _, b := range bases {
 				_, all, _ := b.stream()
 				for i := 1; i < len(all); i++ {
